@@ -230,3 +230,149 @@ Proof.
   { simpl. unfold d_from_int. pose proof P18_pos. nia. }
   pose proof (eloop_in_value _ _ _ _ _ _ _ _ _ _ I Hsc HL L HR EL) as V. simpl in V. rewrite Z.sub_0_r in V. exact V.
 Qed.
+
+(* ---------- the operation ---------- *)
+Lemma owed_frame2 : forall d w w' cur cur' p delta,
+  acc_get (rw_spread w') (ps_id p) = acc_get (rw_spread w) (ps_id p) ->
+  ins d w' cur' (ps_lower p) (ps_upper p) = ins d w cur (ps_lower p) (ps_upper p) + delta ->
+  owed d w' cur' p = owed d w cur p + delta * shares_of w p.
+Proof.
+  intros d w w' cur cur' p delta R I. unfold owed, shares_of, owedr. rewrite R, I.
+  destruct (acc_get (rw_spread w) (ps_id p)); lia.
+Qed.
+
+Lemma swap_rewards_parts : forall w s ei zfo amt now w' evs, swap_rewards w s ei zfo amt now = Some w' ->
+  swap_events s ei zfo amt = Some evs ->
+  (exists w1 pending, apply_events w (denom_in zfo) (p_liq (s_pool s)) now 0 evs = Some (w1, pending)) /\
+  ac_recs (rw_spread w') = ac_recs (rw_spread w) /\ ac_total (rw_spread w') = ac_total (rw_spread w).
+Proof.
+  intros w s ei zfo amt now w' evs H HE. pose proof (swap_rewards_recs _ _ _ _ _ _ _ H) as RC.
+  unfold swap_rewards in H. rewrite HE in H. simpl in H.
+  destruct (apply_events w (if zfo then 0 else 1) (p_liq (s_pool s)) now 0 evs) as [[w1 pending]|] eqn:EA; [|discriminate H]. simpl in H.
+  destruct (acc_add_to (rw_spread w1) _) as [a|] eqn:EF; [|discriminate H]. inversion H; subst. simpl.
+  split; [exists w1, pending; exact EA|]. split; [exact RC|].
+  destruct (acc_add_to_recs _ _ _ EF) as [_ T]. rewrite T, (apply_events_spread _ _ _ _ _ _ _ _ EA). reflexivity.
+Qed.
+
+Lemma paid_swap_core : forall rs rs' o res ei zfo amt evs F fu,
+  PI rs -> 0 < sc_of rs -> rhandler rs o = Some (rs', res) -> is_swap o = true -> swap_args o = Some (ei, zfo, amt) ->
+  swap_events (r_base rs) ei zfo amt = Some evs ->
+  swap_rewards (r_rw rs) (r_base rs) ei zfo amt (s_time (r_base rs)) = Some (r_rw rs') ->
+  s_pos (r_base rs') = s_pos (r_base rs) -> s_next_id (r_base rs') = s_next_id (r_base rs) -> sc_of rs' = sc_of rs ->
+  b_spread (s_bank (r_base rs')) = (fst (b_spread (s_bank (r_base rs))) + fst (pick zfo fu), snd (b_spread (s_bank (r_base rs))) + snd (pick zfo fu)) ->
+  F <= fu * P18 -> 0 <= evalue (s_pos (r_base rs)) zfo (cur_tick rs) evs <= F * sc_of rs ->
+  PI rs' /\ forall d, Phi d rs' <= Phi d rs.
+Proof.
+  intros rs rs' o res ei zfo amt evs F fu [RI [RM [TOT FR]]] HSC H S SA HE HW SP NX SCE BK HF HV.
+  pose proof (rinv_handler _ _ _ _ H RI) as RI'. pose proof RI as [I [D _]].
+  destruct (swap_rewards_parts _ _ _ _ _ _ _ _ HW HE) as [[w1 [pending EA]] [RC TC]].
+  assert (RG : forall j, acc_get (rw_spread (r_rw rs')) j = acc_get (rw_spread (r_rw rs)) j) by (intro j; unfold acc_get; rewrite RC; reflexivity).
+  split.
+  - split; [exact RI'|]. split; [|split].
+    + intros p Hp. rewrite SP in Hp. destruct (RM p Hp) as [r [R Sh]]. exists r. rewrite RG. auto.
+    + rewrite TC, SP. exact TOT.
+    + intros j Hj. rewrite RG. apply FR. rewrite <- NX. exact Hj.
+  - intro d. pose proof (PI_PT rs RI) as HPT.
+    set (sel := Bool.eqb d (negb (denom_in zfo =? 0))).
+    assert (OW : Owed d rs' = Owed d rs + (if sel then evalue (s_pos (r_base rs)) zfo (cur_tick rs) evs else 0)).
+    { unfold Owed. rewrite SP.
+      assert (E : zsum (owed d (r_rw rs') (cur_tick rs')) (s_pos (r_base rs))
+                  = zsum (fun p => owed d (r_rw rs) (cur_tick rs) p
+                            + (if sel then ps_liq p * sgrowth zfo (cur_tick rs) evs (ps_lower p) (ps_upper p) else 0)) (s_pos (r_base rs))).
+      { apply zsum_ext. intros p Hp. destruct (HPT p Hp) as [Hlu [St [Kl Ku]]].
+        pose proof (swap_op_wf (CS d) rs o rs' res I D H S) as W.
+        pose proof (op_inside_swap (CS d) rs o rs' res _ _ H S Hlu (vmap_sorted_any _ _ _ St) Kl Ku W) as INS.
+        assert (TR : in_range_growth (rview (CS d) rs) (op_trace (CS d) rs o) (ps_lower p) (ps_upper p)
+                     = if sel then sgrowth zfo (cur_tick rs) evs (ps_lower p) (ps_upper p) else 0).
+        { unfold op_trace. rewrite SA, HE. unfold rview.
+          replace dc0 with (dc_one (denom_in zfo) 0) by (unfold dc_one, denom_in; destruct zfo; reflexivity).
+          apply (strace_growth_CS d zfo evs (denom_in zfo) (r_rw rs) _ _ 0 w1 pending _ _ _ EA). }
+        rewrite TR in INS.
+        rewrite (owed_frame2 d (r_rw rs) (r_rw rs') (cur_tick rs) (cur_tick rs') p _ (RG _) INS).
+        rewrite (recs_match_shares rs p RM Hp). destruct sel; lia. }
+      rewrite E, zsum_plus. f_equal. destruct sel.
+      - apply zsum_sgrowth.
+      - clear. induction (s_pos (r_base rs)); simpl; lia. }
+    unfold Phi. rewrite OW, SCE. unfold spread_bal. rewrite BK.
+    assert (PS : pr_sel d (fst (b_spread (s_bank (r_base rs))) + fst (pick zfo fu), snd (b_spread (s_bank (r_base rs))) + snd (pick zfo fu))
+                 = pr_sel d (b_spread (s_bank (r_base rs))) + (if sel then fu else 0)).
+    { unfold sel, denom_in, pick. destruct zfo; destruct d; simpl; lia. }
+    rewrite PS. set (bal := pr_sel d (b_spread (s_bank (r_base rs)))) in *. set (ev := evalue _ _ _ _) in *.
+    set (sc := sc_of rs) in *. pose proof P18_pos as HP. destruct sel; [|lia].
+    assert (F * sc <= fu * P18 * sc) by nia. clearbody ev bal sc. nia.
+Qed.
+
+Lemma update_pool_for_swap_bspread : forall s sender zfo r s', update_pool_for_swap s sender zfo r = Some s' ->
+  let fu := d_truncate_int (d_ceil (sr_fee r)) in
+  b_spread (s_bank s') = (fst (b_spread (s_bank s)) + fst (pick zfo fu), snd (b_spread (s_bank s)) + snd (pick zfo fu)) /\
+  s_pos s' = s_pos s /\ s_next_id s' = s_next_id s /\ p_scaling (s_pool s') = p_scaling (s_pool s).
+Proof.
+  intros s sender zfo r s' H. cbv zeta.
+  destruct (update_pool_for_swap_spec _ _ _ _ _ H) as [bb Hb].
+  split; [|rewrite Hb; simpl; auto].
+  unfold update_pool_for_swap in H. cbv zeta in H.
+  destruct (sr_in r - d_truncate_int (d_ceil (sr_fee r)) <=? 0); [discriminate H|].
+  destruct (user_bal (s_bank s) sender); [|discriminate H]. cbv beta iota in H.
+  destruct (pick zfo (sr_in r - d_truncate_int (d_ceil (sr_fee r)))) as [i0 i1] eqn:EPi.
+  destruct (send_user_to_pool (s_bank s) sender i0 i1) as [b1|] eqn:E1; [|discriminate H]. cbv beta iota in H.
+  match type of H with (do b2 <- ?X; _) = _ => destruct X as [b2|] eqn:E2; [|discriminate H] end. cbv beta iota in H.
+  destruct (sr_out r <=? 0); [discriminate H|].
+  destruct (pick (negb zfo) (sr_out r)) as [o0 o1] eqn:EPo.
+  destruct (send_pool_to_user b2 sender o0 o1) as [b3|] eqn:E3; [|discriminate H]. cbv beta iota in H.
+  match type of H with (if ?b then None else _) = _ => destruct b; [discriminate H|] end.
+  inversion H; subst. simpl.
+  rewrite (send_pool_to_user_bspread _ _ _ _ _ E3).
+  pose proof (send_user_to_pool_bspread _ _ _ _ _ E1) as B1.
+  destruct (d_truncate_int (d_ceil (sr_fee r)) =? 0) eqn:EZ.
+  - inversion E2; subst b2. rewrite B1. apply Z.eqb_eq in EZ. rewrite EZ. destruct (b_spread (s_bank s)) as [x y]. destruct zfo; unfold pick; cbn [fst snd]; rewrite ?Z.add_0_r; reflexivity.
+  - destruct (user_bal b1 sender) as [ub1|]; [|discriminate E2]. cbv beta iota in E2.
+    destruct (pick zfo (d_truncate_int (d_ceil (sr_fee r)))) as [f0 f1].
+    destruct ((fst ub1 <? f0) || (snd ub1 <? f1)); [discriminate E2|]. inversion E2; subst. simpl. rewrite B1. reflexivity.
+Qed.
+
+Lemma fee_ceil : forall F, 0 <= F -> F <= d_truncate_int (d_ceil F) * P18.
+Proof.
+  intros a Ha. unfold d_truncate_int, d_ceil. pose proof P18_pos as HP.
+  destruct (quot_bounds a P18 Ha HP) as [A B]. pose proof (Z.quot_rem' a P18) as QR.
+  destruct (0 <? Z.rem a P18) eqn:E; rewrite Z.quot_mul by lia; [lia|]. apply Z.ltb_ge in E.
+  pose proof (Z.rem_bound_pos a P18 Ha HP). lia.
+Qed.
+
+Theorem paid_swap : forall rs o rs' res, PI rs -> 0 < sc_of rs -> rhandler rs o = Some (rs', res) -> is_swap o = true ->
+  PI rs' /\ sc_of rs' = sc_of rs /\ forall d, Phi d rs' <= Phi d rs.
+Proof.
+  intros rs o rs' res HPI HSC H S. pose proof HPI as [[I _] _].
+  destruct o as [b|? ?|? ?|? ? ? ? ? ?]; simpl in S; try discriminate S.
+  destruct b as [? ? ? ? ? ? ?|? ? ?|? ? ? ? ? ?|? ? ?|sender zfo amt mo|sender zfo amt mi|?]; simpl in S; try discriminate S.
+  - pose proof H as H0. simpl in H. unfold r_swap_in in H.
+    destruct (swap_exact_in (r_base rs) sender zfo amt mo) as [[s' out]|] eqn:E1; [|discriminate H]. simpl in H.
+    destruct (swap_rewards (r_rw rs) (r_base rs) true zfo amt (s_time (r_base rs))) as [w|] eqn:E2; [|discriminate H].
+    inversion H; subst rs' res. clear H.
+    destruct (swap_events (r_base rs) true zfo amt) as [evs|] eqn:E3; [|unfold swap_rewards in E2; rewrite E3 in E2; discriminate E2].
+    unfold swap_exact_in in E1. destruct (negb (0 <? amt) || negb (0 <? mo)); [discriminate E1|].
+    destruct (compute_out_amt_given_in (r_base rs) zfo true amt) as [r0|] eqn:EC; [|discriminate E1]. cbv beta iota in E1.
+    destruct (negb (0 <? sr_out r0)); [discriminate E1|].
+    destruct (update_pool_for_swap (r_base rs) sender zfo r0) as [s1|] eqn:EU; [|discriminate E1]. cbv beta iota in E1.
+    destruct (sr_out r0 <? mo); [discriminate E1|]. inversion E1; subst s1 out. clear E1.
+    destruct (update_pool_for_swap_bspread _ _ _ _ _ EU) as [BK [SP [NX SCL]]]. cbv zeta in BK.
+    pose proof (swap_in_value _ _ _ _ _ I HSC E3 EC) as V.
+    assert (F0 : 0 <= sr_fee r0) by (unfold sc_of in HSC; nia).
+    destruct (paid_swap_core rs (mkRS s' w) _ _ true zfo amt evs (sr_fee r0) _ HPI HSC H0 eq_refl eq_refl E3 E2 SP NX SCL BK (fee_ceil _ F0) V) as [A B].
+    split; [exact A|]. split; [exact SCL|exact B].
+  - pose proof H as H0. simpl in H. unfold r_swap_out in H.
+    destruct (swap_exact_out (r_base rs) sender zfo amt mi) as [[s' tin]|] eqn:E1; [|discriminate H]. simpl in H.
+    destruct (swap_rewards (r_rw rs) (r_base rs) false zfo amt (s_time (r_base rs))) as [w|] eqn:E2; [|discriminate H].
+    inversion H; subst rs' res. clear H.
+    destruct (swap_events (r_base rs) false zfo amt) as [evs|] eqn:E3; [|unfold swap_rewards in E2; rewrite E3 in E2; discriminate E2].
+    unfold swap_exact_out in E1. destruct (negb (0 <? amt) || negb (0 <? mi)) eqn:EV; [discriminate E1|].
+    apply orb_false_iff in EV. destruct EV as [EV _]. apply negb_false_iff, Z.ltb_lt in EV.
+    destruct (compute_in_amt_given_out (r_base rs) zfo true amt) as [r0|] eqn:EC; [|discriminate E1]. cbv beta iota in E1.
+    destruct (negb (0 <? sr_in r0)); [discriminate E1|].
+    destruct (update_pool_for_swap (r_base rs) sender zfo r0) as [s1|] eqn:EU; [|discriminate E1]. cbv beta iota in E1.
+    destruct (mi <? sr_in r0); [discriminate E1|]. inversion E1; subst s1 tin. clear E1.
+    destruct (update_pool_for_swap_bspread _ _ _ _ _ EU) as [BK [SP [NX SCL]]]. cbv zeta in BK.
+    pose proof (swap_out_value _ _ _ _ _ I HSC (Z.lt_le_incl _ _ EV) E3 EC) as V.
+    assert (F0 : 0 <= sr_fee r0) by (unfold sc_of in HSC; nia).
+    destruct (paid_swap_core rs (mkRS s' w) _ _ false zfo amt evs (sr_fee r0) _ HPI HSC H0 eq_refl eq_refl E3 E2 SP NX SCL BK (fee_ceil _ F0) V) as [A B].
+    split; [exact A|]. split; [exact SCL|exact B].
+Qed.
